@@ -22,7 +22,7 @@ def DataFrame_count_signature : List String := ["self", "*colnames"]
 
 /-- dataiter/data_frame.py: DataFrame.group_by (sha256 of the function source: 2edbc614a7896e6a) -/
 def DataFrame_group_by (truth : Term → Bool) : Out :=
-  let attr0_1' : Term := (Term.app "tuple" [(Term.sym "colnames")]);
+  let attr0_1' : Term := (Term.app "tuple()" [(Term.sym "colnames")]);
   let eff0 : Term := (Term.app "setattr" [(Term.sym "self"), (Term.sym "_group_colnames"), attr0_1']);
   Out.ret [eff0] (Term.sym "self")
 
